@@ -10,11 +10,14 @@ bt = VerusUnit("c01_backtrack", "c01_backtrack", rlimit=60)
 eo = VerusUnit("c01_edge_oriented", "c01_edge_oriented", rlimit=60, paired_kani=(wit, []))
 sv = VerusUnit("c13_single_via", "c13_single_via", rlimit=60, paired_kani=(wit, []))
 dp = VerusUnit("c01_dispatch", "c01_dispatch", rlimit=60)
-UNITS = [al, bt, eo, dp, sv, wit]
+app = VerusUnit("c11_instance", "c11_instance", rlimit=30)
+UNITS = [al, bt, eo, dp, sv, app, wit]
 EXPLANATION = ("run_a_star / advance_search / get_last_traversed_edge_id / Direction::{tree_key_vertex_id, terminal_vertex_id} extracted verbatim; "
                "loop invariants TW (entry edge joins parent to entry in the search direction), DOM, POT (labels strictly decrease along parents) "
                "verified for every graph, direction and model configuration satisfying the assumed callee contracts; no-revisit lemma; "
                "single-via alternatives (unit c13_single_via): every returned alternative is a forward-tree route to a via vertex followed by the re-traversed reverse-tree route, and with TW of both trees it is a contiguous "
                "source-to-target walk (lemma_via_route_is_walk); reorient_reverse_route reverses the edge order and keeps the ids (verified); "
-               "SearchAlgorithm::run_vertex_oriented (unit c01_dispatch, verbatim): a plain search hands back run_a_star's tree (search_post) and, with a destination, exactly one route, the backtrack of that tree (route_ok); lemma: it is a contiguous walk")
+               "SearchAlgorithm::run_vertex_oriented (unit c01_dispatch, verbatim): a plain search hands back run_a_star's tree (search_post) and, with a destination, exactly one route, the backtrack of that tree (route_ok); lemma: it is a contiguous walk; "
+               "SearchApp::run / run_vertex_oriented / run_edge_oriented (unit c11_instance, verbatim): the search is run FORWARD from the vertex (edge) the query was matched to, to its matched destination, on the instance built for THIS query, and the "
+               "routes, trees and iteration count that reach the response are the algorithm's own; a query without a well-typed matched origin is an error, never a search from somewhere else")
 NOT_DECIDED = "termination of the search; Yen's driver as a route producer; SearchAlgorithm::run_edge_oriented and the free fn run_edge_oriented (the edge-oriented wrappers around the k-shortest-path drivers)"
